@@ -14,13 +14,20 @@ FLAGS = ["-fno-access-control", "-DOSMIUM_VERIF_INPUT_BUFFER_SIZE=64", "-DOSMIUM
 
 def build(ctx):
     vs = ctx.vsched_obj()
-    return {"h05": ctx.build("h05", ["h05.cpp"], flags=FLAGS, opt="-O1", objects=[vs])}
+    return {"h05": ctx.build("h05", ["h05.cpp"], flags=FLAGS, opt="-O1", objects=[vs]),
+            "h05tsan": ctx.build_tsan_free("h05tsan", ["h05.cpp"], flags=FLAGS)}
 
 
 def run(ctx):
-    exe = build(ctx)["h05"]
+    exes = build(ctx)
+    exe = exes["h05"]
     if getattr(ctx, "build_only", False):
         return
+    # free-running ThreadSanitizer companion (real threads, no scheduler): guards the assumption that scheduling points at the
+    # synchronisation operations and the atomic-flag hooks are sufficient, i.e. that the pipeline has no unsynchronised sharing
+    import os
+    ctx.run_harness(exes["h05tsan"], ["--iterations", "5" if ctx.tier == "quick" else "40"],
+                    env={"TSAN_OPTIONS": "halt_on_error=0:exitcode=66:suppressions=" + os.path.join(os.path.dirname(os.path.dirname(ctx.checkdir)), "engine", "vsched", "tsan.supp")}, timeout=150)
     ctx.run_harness(exe, [])
     ctx.assume("sequentially consistent scheduler; no spurious wake-ups; PBF test file written by the library's own Writer "
                "(the expectation is the abstract object list, not the Writer's output)")
